@@ -188,6 +188,29 @@ E["C17"] = dict(
     note="The converse (image of parse is within WFparse) and fuel sufficiency of lexer/parser are not proved. Two recorded findings (50+-operator left chains deparse beyond the parse depth limit; "
          "folded non-finite constants print as `inf`).",
     tech="Lean 4 proof (printer/parser round trip over tables regenerated from the source) + behavioural round-trip oracle on the real deparser + differential correspondence")
+E["C08"] = dict(
+    text="Lean 4 theorems (Props/C08.lean, 27) about an executable transcription of eval_binop_*/eval_unary/assignment/inc-dec (run.c) and of fold_constants_for_binop and the unary "
+         "folding (parse.c, incl. WHICH node field each case reads), floats abstract (any instance of the operations the C uses), over tables REGENERATED from the source on every run "
+         "(extract/op_tables.py: opcode enums, binop_func[] order, assignment-op -> binop mapping, inc/dec handling; decide): fold_sound (every fold result equals the run-time result "
+         "for every operator, node pair and inactive-field content), fold_error_matches, fold_total/eval_total (the partial machine division is never reached unguarded), "
+         "storage_independent (any two non-aliasing placements among named/global/local/parameter/map element/array element give the same value or error and final store), "
+         "byref_independent, literal_placement, inc_dec_pre/post. Two clauses are PARTIAL with machine-checked witnesses of necessity: compound_assign_partial (needs: y does not assign x; "
+         "`x += (x=5)` evaluates the right side first) and fold_expr_error_partial (the folder reports division by zero also in branches never evaluated) = the two recorded findings. "
+         "Harness: nine variant programs per expression tree (literal/folded, named, @global, @local, parameter, by-ref parameter, map with string/integer keys, array) run through the CLI; "
+         "variant equality on the real output first, then every line compared with the model (driver emulates x87 extended floats exactly).",
+    note="Scalar operands and constant subscripts only; string<->number conversion, %.6g, comparison and matching are parameters; signed overflow and shift counts modelled as x86-64 computes them.",
+    tech="Lean 4 proof (fold = eval, storage independence) over operator tables regenerated from the source + variant-equality oracle + differential correspondence")
+E["C12"] = dict(
+    text="Lean 4 theorems (Props/C12.lean, 17) about an executable transcription of the format scanner of hawk_rtx_format / hawk_rtx_formatmbs, fmt_uintmax (fmt-imp.h: digit loop, "
+         "precision zeros, sign, prefix, the three fill layouts, required-length return and retry), the %c/%s emitters and fmt.c's float-spec recomposition, against a declarative ISO C "
+         "specification CSpec.render: format_int_eq_C (d i o u x X with any flags in any order, literal or * width/precision incl. negatives, any 64-bit value, unbounded width/precision), "
+         "format_char_eq_C, format_str_eq_C, %% , unknown/incomplete specs copied through unchanged, float_spec_passthrough (libc receives exactly the user's spec with * substituted), "
+         "CONVFMT/OFMT take the same path, composition over a whole format string with arguments consumed in order, missing argument fails. Harness: hawk sprintf vs C snprintf with the "
+         "equivalently typed argument on the flags x width x precision x conversion x value grid (oracle), printf through the CLI, CONVFMT/OFMT; then hawk vs the model and CSpec vs snprintf "
+         "(the hand-written C spec is itself validated against glibc on every run).",
+    note="Trusted: libc float digit generation; valtoint/valtoflt/valtostr results are carried as arguments; GROW buffer management (ASan); widths/precisions >= 2^31 outside the claim "
+         "(`%.2147483648g` overflows a stack buffer in fmt.c: recorded under C01's scope in DESIGN.md).",
+    tech="Lean 4 proof (hawk's integer/char/string conversions = ISO C rendering for all flags/widths/precisions/values) + snprintf oracle + differential correspondence")
 
 claimed = sorted(E)
 checks = []
